@@ -11,6 +11,7 @@ import (
 	"regexp"
 	"runtime"
 	"runtime/debug"
+	"runtime/pprof"
 	"strings"
 	"syscall"
 	"time"
@@ -199,6 +200,9 @@ func runHistory(h History) (rep Report) {
 	// 4. read access to whatever came back, errors or not
 	seenMod := map[*yang.Module]bool{}
 	rb := newReadback()
+	if os.Getenv("VERIF_C01_RAW") == "1" {
+		rb.byType = map[string]int64{}
+	}
 	w := &walker{seen: map[*yang.Entry]bool{}, rb: rb}
 	var mods []*yang.Module
 	for _, mm := range []map[string]*yang.Module{ms.Modules, ms.SubModules} {
@@ -248,6 +252,7 @@ func runHistory(h History) (rep Report) {
 	setPhase("read-back: entries kept beside the children (Augments, Augmented, Deviations, Deviate, Uses, groupings)")
 	main := w.n
 	w.sideMode, w.mainNodes = true, main
+	rb.findLeft = 4
 	for len(rb.side) > 0 {
 		e := rb.side[len(rb.side)-1]
 		rb.side = rb.side[:len(rb.side)-1]
@@ -260,6 +265,9 @@ func runHistory(h History) (rep Report) {
 	}
 	rep.Nodes = main
 	rep.Calls = rb.calls
+	for _, k := range lib.SortedKeys(rb.byType) {
+		rep.RawErrs = append(rep.RawErrs, fmt.Sprintf("read-back calls on %s: %d", k, rb.byType[k]))
+	}
 	rep.Methods = rb.fresh
 	if w.cyclic != "" {
 		rep.Notes = append(rep.Notes, w.cyclic)
@@ -315,8 +323,9 @@ type walker struct {
 // every entry down to depth 150, below that on every 500th level and on every entry without
 // children); the fixed calls below are made on every entry.  maxSideNodes bounds the walk over the
 // entries kept beside the children (a chain of k groupings has k^2/2 grouping entries).
-const fullNodes = 20000
-const maxSideNodes = 60000
+const fullNodes = 5000
+const fullSideNodes = 2500
+const maxSideNodes = 8000
 
 // heavyAt decides where the calls whose own cost grows with the square of the depth (Path and
 // Find with the node's own path build a string per ancestor) are made: on every node down to depth
@@ -356,7 +365,7 @@ func (w *walker) walk(e *yang.Entry, depth int) (height int) {
 	_, _ = e.SingleDefaultValue()
 	w.readType(e.Type, 0)
 	// every exported accessor, by reflection (readback.go)
-	if w.n <= fullNodes && heavyAt(e, depth) {
+	if heavyAt(e, depth) && ((!w.sideMode && w.n <= fullNodes) || (w.sideMode && w.n-w.mainNodes <= fullSideNodes)) {
 		w.rb.entry(e, depth, true)
 	}
 	// Find: own path, a bogus path, relative paths
@@ -378,7 +387,7 @@ func (w *walker) walk(e *yang.Entry, depth int) (height int) {
 	}
 	// Print writes an indented listing, quadratic in the depth: from the root when the tree is
 	// shallow, else from the nodes 400 levels above the deepest ones (decided on the way back)
-	full := w.n <= fullNodes
+	full := (!w.sideMode && w.n <= fullNodes) || (w.sideMode && w.n-w.mainNodes <= fullSideNodes)
 	up := func(h int) {
 		if h+1 > height {
 			height = h + 1
@@ -623,6 +632,12 @@ func childMain() {
 		if err := os.Chdir(dir); err != nil {
 			fmt.Fprintln(os.Stderr, "child: chdir:", err)
 			os.Exit(3)
+		}
+	}
+	if pf := os.Getenv("VERIF_C01_PROF"); pf != "" {
+		if f, err := os.Create(pf); err == nil {
+			pprof.StartCPUProfile(f)
+			go func() { time.Sleep(20 * time.Second); pprof.StopCPUProfile(); f.Close() }()
 		}
 	}
 	debug.SetMaxStack(512 << 20)
